@@ -450,36 +450,47 @@ structure FileSetting where
   path : Str
   fileId : Nat
   fs : FS
+  deriving DecidableEq, Repr
 
 structure Result where
   ok : Bool
   errors : Nat
   files : List FileSetting
+  deriving DecidableEq, Repr
+
+/-- the argument vector of an entry: the "arguments" strings, or the "command" string split by `collectArgs` -/
+def entryArgs : ArgsForm → Option (List Str)
+  | .arguments l => some l
+  | .command c =>
+    match Shell.collectArgs c with
+    | .ok l => some l
+    | .missingQuote => none
+  | .neither => none
+
+/-- `directory` with native separators converted and a trailing '/' -/
+def entryDir (dir : Str) : Str :=
+  let d0 := fromNative dir
+  if endsWithChar d0 '/' then d0 else d0 ++ ['/']
+
+/-- the path of the analysed file -/
+def entryPath (dir f : Str) : Str :=
+  let file := fromNative f
+  if file.head? == some '/' then simplifyPath file else simplifyPath (entryDir dir ++ file)
 
 /-- the loop over the entries of the database -/
 def importEntries : List Entry → Nat → List FileSetting → Result
   | [], errs, acc => ⟨true, errs, acc⟩
   | e :: rest, errs, acc =>
-    let d0 := fromNative e.dir
-    let directory := if endsWithChar d0 '/' then d0 else d0 ++ ['/']
-    let argsRes : Option (List Str) :=
-      match e.args with
-      | .arguments l => some l
-      | .command c =>
-        match Shell.collectArgs c with
-        | .ok l => some l
-        | .missingQuote => none
-      | .neither => none
-    match argsRes with
+    let directory := entryDir e.dir
+    match entryArgs e.args with
     | none => ⟨false, errs + 1, acc⟩
     | some arguments =>
       match e.file with
       | none => importEntries rest (errs + 1) acc
       | some f =>
-        let file := fromNative f
-        if !acceptFile file then importEntries rest errs acc
+        if !acceptFile (fromNative f) then importEntries rest errs acc
         else
-          let path := if file.head? == some '/' then simplifyPath file else simplifyPath (directory ++ file)
+          let path := entryPath e.dir f
           let fs := parseArgs arguments
           let fs' := { fs with includePaths := fsSetIncludePaths directory fs.includePaths [] [] }
           let fileId := (acc.filter fun x => x.path = path).length
@@ -636,5 +647,64 @@ def defOk (d : Str) : Bool :=
 def Spec.Opts.toRaw (o : Spec.Opts) : FS :=
   { includePaths := o.includes, systemIncludePaths := o.sysIncludes, defs := joinDefs o.defines,
     undefs := o.undefs, standard := o.std }
+
+/-! ### specification of the import of a whole database -/
+namespace Import
+
+/-- the directory an `-I` value denotes for a compiler running in `base` (= `directory` + '/'): an absolute
+    value is itself, a relative one is resolved against `base`; written with a trailing '/' and normalised by
+    `simplifyPath` (which is *not* specified further here) -/
+def resolveInc (base d : Str) : Str :=
+  if incIsAbsolute d then (if endsWithChar d '/' then d else d ++ ['/'])
+  else
+    let s2 := simplifyPath (base ++ (if endsWithChar d '/' then d.dropLast else d))
+    if endsWithChar s2 '/' then s2 else s2 ++ ['/']
+
+/-- the include search list: first occurrence of every value, resolved -/
+def incSpec (base : Str) : List Str → List Str → List Str
+  | [], _ => []
+  | d :: r, seen => if seen.contains d then incSpec base r seen else resolveInc base d :: incSpec base r (d :: seen)
+
+/-- an `-I` value the import treats as a plain directory name: non-empty, no MSBuild placeholder `%(`, no
+    backslash, no `$(VAR)`, and not normalised away completely -/
+def plainInc (base d : Str) : Bool :=
+  !d.isEmpty && !("%(".toList.isPrefixOf d) && !d.contains '\\' &&
+  (incIsAbsolute d ||
+    ((findSub "$(".toList (if endsWithChar d '/' then d.dropLast else d)).isNone &&
+     !(simplifyPath (base ++ (if endsWithChar d '/' then d.dropLast else d))).isEmpty))
+
+/-- the directories the `-isystem` values denote for a compiler running in `base` -/
+def sysSpec (base : Str) (ds : List Str) : List Str :=
+  ds.map fun d => if incIsAbsolute d then d else simplifyPath (base ++ d)
+
+/-- the file settings an entry with directory `dir` and argument vector `args` specifies -/
+def specSettings (dir : Str) (args : List Str) : FS :=
+  let o := Spec.gcc args {}
+  { o.toFS with includePaths := incSpec (entryDir dir) o.includes [],
+                systemIncludePaths := sysSpec (entryDir dir) o.sysIncludes }
+
+/-- an entry inside the property's quantifier: it names an accepted source file, its vector is `clean`, its
+    `-D` values are representable, its `-I` values plain and its `-isystem` values absolute (the import keeps
+    `-isystem` values verbatim, so a relative one is not resolved against `directory`: finding
+    `isystem-relative-not-resolved`) -/
+def goodEntry (e : Entry) : Bool :=
+  match e.file, entryArgs e.args with
+  | some f, some args =>
+    acceptFile (fromNative f) && clean args && (Spec.gcc args {}).defines.all defOk &&
+    (Spec.gcc args {}).includes.all (plainInc (entryDir e.dir)) &&
+    (Spec.gcc args {}).sysIncludes.all incIsAbsolute
+  | _, _ => false
+
+/-- what the database specifies: one file setting per entry, in order, numbered per path -/
+def specImport : List Entry → List FileSetting → List FileSetting
+  | [], acc => acc
+  | e :: rest, acc =>
+    match e.file, entryArgs e.args with
+    | some f, some args =>
+      let path := entryPath e.dir f
+      specImport rest (acc ++ [⟨path, (acc.filter fun x => x.path = path).length, specSettings e.dir args⟩])
+    | _, _ => specImport rest acc
+
+end Import
 
 end Cppcheck.GccArgs
